@@ -117,7 +117,19 @@ def call_unigen_python(input_file: Path, sample_count: int) -> str:
     
     if not sampling_set:
         sampling_set = list(range(1, num_vars + 1))
-    
+
+    # pyunigen ends the whole process when the formula is unsatisfiable, so
+    # settle that case first.
+    try:
+        import pycryptosat
+        checker = pycryptosat.Solver()
+        for clause in clauses:
+            checker.add_clause(clause)
+        if not checker.solve()[0]:
+            return ""
+    except ImportError:
+        pass
+
     sampler = pyunigen.Sampler()
     for clause in clauses:
         sampler.add_clause(clause)
